@@ -621,3 +621,13 @@ func (x *Exec) trCall(e *SExpr, env *TrEnv) *Term {
 	specErr(e, "unknown function %s", e.Name)
 	return nil
 }
+
+func (e *TrEnv) pkgScope(x *Exec) *types.Scope {
+	if e.pkg != nil {
+		return e.pkg.Scope()
+	}
+	if x.fi != nil {
+		return x.fi.Pkg.Types.Scope()
+	}
+	return types.Universe
+}
